@@ -80,6 +80,19 @@ fn main() {
             }
             std::process::exit(0);
         }
+        "vectors" => {
+            // random vectors for the python cross-check of the reference's primitives
+            let seed = args.get(2).and_then(|s| s.parse().ok()).unwrap_or(1);
+            let mut r = rng::Rng::new(seed);
+            for k in 0..96u64 {
+                let n = if k < 4 { k as usize } else { r.below(400) as usize };
+                let d = r.bytes(n);
+                let hex: String = d.iter().map(|b| format!("{b:02x}")).collect();
+                let leaf: String = refimpl::h_leaf(&d).iter().map(|b| format!("{b:02x}")).collect();
+                println!("{} {:08x} {}", if hex.is_empty() { "-".to_string() } else { hex }, refimpl::crc32(&d), leaf);
+            }
+            std::process::exit(0);
+        }
         "replay" => {
             let code = framework::run_replay(&args[2]);
             std::process::exit(code);
